@@ -99,7 +99,7 @@ fn snap_delta<T: Snap>(t: &T, before: &Obs) -> Obs {
 }
 pub fn run_op<T>(t: &mut T, op: &Value) -> Obs
 where T: TreeKey + TreeSerialize + TreeDeserializeOwned + TreeAny + Snap {
-    let before = match op["op"].as_str().unwrap() { "ser" | "de" | "ref" | "mut" => Snap::snap(&*t), _ => l(vec![]) };
+    let before = match op["op"].as_str().unwrap() { "ser" | "de" | "ref" | "mut" | "rt" => Snap::snap(&*t), _ => l(vec![]) };
     match op["op"].as_str().unwrap() {
         "transcode" => transcode_op::<T>(op),
         "rawtrav" => rawtrav_op::<T>(op),
@@ -124,6 +124,47 @@ where T: TreeKey + TreeSerialize + TreeDeserializeOwned + TreeAny + Snap {
                 (r, fin)
             });
             l(vec![res_obs(&r), b(fin), log_obs(), snap_delta(&*t, &before)])
+        }
+        "rt" => {
+            // C05: read by key, then write the produced bytes back by the same key (JSON or postcard);
+            // the depth of an Ok is not reported by the postcard helpers: only Ok / the error is observed
+            let pc = op["pc"].as_bool().unwrap_or(false);
+            let mut buf = vec![0u8; 2048];
+            let (r1, len) = with_keys(&op["keys"], &mut |k| {
+                if pc {
+                    match miniconf::postcard::get_by_key(&*t, DynKeys(k), postcard::ser_flavors::Slice::new(&mut buf[..])).map(|s| s.len()) {
+                        Ok(n) => (l(vec![z(0)]), n),
+                        Err(e) => { let mut v = vec![z(1)]; v.extend(err_obs(&e)); (l(v), usize::MAX) }
+                    }
+                } else {
+                    let mut ser = serde_json_core::ser::Serializer::new(&mut buf[..]);
+                    let r = t.serialize_by_key(DynKeys(k), &mut ser);
+                    let n = ser.end();
+                    match r { Ok(_) => (l(vec![z(0)]), n), Err(e) => { let mut v = vec![z(1)]; v.extend(err_obs(&e)); (l(v), usize::MAX) } }
+                }
+            });
+            let lg1 = log_obs();
+            if len == usize::MAX {
+                l(vec![z(0), r1, lg1])
+            } else {
+                let p = buf[..len].to_vec();
+                let (r2, fin) = with_keys(&op["keys"], &mut |k| {
+                    if pc {
+                        match miniconf::postcard::set_by_key(&mut *t, DynKeys(k), postcard::de_flavors::Slice::new(&p[..])) {
+                            Ok(rem) => (l(vec![z(0)]), rem.is_empty()),
+                            Err(e) => { let mut v = vec![z(1)]; v.extend(err_obs(&e)); (l(v), true) }
+                        }
+                    } else {
+                        let mut de = serde_json_core::de::Deserializer::new(&p, None);
+                        let r = t.deserialize_by_key(DynKeys(k), &mut de);
+                        match r {
+                            Ok(_) => (l(vec![z(0)]), de.end().map(|n| n == p.len()).unwrap_or(false)),
+                            Err(e) => { let mut v = vec![z(1)]; v.extend(err_obs(&e)); (l(v), true) }
+                        }
+                    }
+                });
+                l(vec![z(1), r2, b(fin), lg1, log_obs(), snap_delta(&*t, &before)])
+            }
         }
         "ref" => {
             let r = with_keys(&op["keys"], &mut |k| { let r = t.ref_any_by_key(DynKeys(k)); tres_obs(&r, |a| any_obs(*a)) });
